@@ -613,6 +613,8 @@ def main():
         sys.path.insert(0, os.path.dirname(os.path.abspath(__file__)))
         import funcs
         broken.extend(funcs.generate_all())
+        import funcs_big
+        broken.extend(funcs_big.generate_all())
     except Exception as e:  # the function translator must never take the other extractions down with it
         broken.append(f"funcs: translator crashed: {type(e).__name__} {e}")
 
